@@ -14,15 +14,15 @@ RULE = ("thread programs = ordered pairs over the operation alphabet {to_pandas(
         "to_pandas(filters=..on the int column), to_pandas(filters=..on a categorical text column: statistics decoded "
         "through the converted type and memoised in the shared metadata; two constants, selecting one / both row "
         "groups), to_pandas(categories=..), "
-        "to_pandas(filters, row_filter=True), pf[0].to_pandas(), pf[0:2].to_pandas(), list(iter_row_groups()), head(1), "
+        "to_pandas(filters, row_filter=True), to_pandas(columns=[one categorical]) for the unordered and for the ordered categorical (same number of labels), pf[0].to_pandas(), pf[0:2].to_pandas(), list(iter_row_groups()), head(1), "
         "statistics, pickle round trip, dtypes/columns/count, read_row_group_file(rg 1) called directly, str(pf.schema)} "
-        "on one shared, fresh handle of a 2-row-group, 4-column (int, two categoricals, string) single-file dataset; over "
+        "on one shared, fresh handle of a 2-row-group, 4-column (int, an unordered and an ordered categorical of three labels each, string) single-file dataset; over "
         "{pf[0].to_pandas(), to_pandas(), str(pf.schema), dtypes/columns/count} on a handle of a file with a nested schema "
         "(struct holding a list: the schema tree is flattened); over {to_pandas(), to_pandas(columns=[a]), "
         "pf[0].to_pandas(), pf[1].to_pandas(), to_pandas(filters=..on the partition column), list(iter_row_groups()), dtypes/columns/count/"
         "partition values} on a handle of a hive dataset (2 part files, one partition column; module caches emptied "
         "after the handle is built); plus two threads calling writer.make_part_file with one shared schema/fmd; all "
-        "schedules with 0 and 1 preemptions at every source line of the traced files (quick: 25 pairs: every "
+        "schedules with 0 and 1 preemptions at every source line of the traced files (quick: 27 pairs: every "
         "handle-deriving / memoising operation as the preempted thread, filters and dtypes as the preempted thread, a "
         "memoising operation against itself, the schema text against itself, 3 nested-schema and 7 hive pairs (each pick of a row group before and after the parent's full read); thorough: all ordered pairs of the first "
         "11 single-file operations, each further operation before and after {full, categories, pick0, statistics, "
@@ -48,7 +48,7 @@ ASSUMPTIONS = ["scheduling points at source-line granularity (a switch inside on
 
 FILES = {"api.py", "schema.py", "core.py", "util.py", "writer.py", "dataframe.py", "converted_types.py", "encoding.py"}
 OPS = ["full", "cols_a", "filters", "categories", "pick0", "slice02", "iter", "head1", "statistics", "pickle", "meta"]
-MORE_OPS = ["filters_c", "filters_c2", "rrgf", "rowfilter", "schema_text"]
+MORE_OPS = ["filters_c", "filters_c2", "rrgf", "rowfilter", "schema_text", "cols_c", "cols_c2"]
 PARTNERS = ["full", "categories", "pick0", "statistics"]
 NESTED_OPS = ["n:pick0", "n:full", "n:schema_text", "n:meta"]
 HIVE_OPS = ["h:full", "h:cols_a", "h:pick0", "h:pick1", "h:pfilt", "h:iter", "h:meta"]
@@ -60,6 +60,8 @@ QUICK_PAIRS = [# a handle being derived (pf[0], iteration, head) while another t
                # filters as the preempted thread: it selects row group 1 only, the other one both; the statistics of a
                # text column are decoded and memoised in the shared metadata
                ("filters_c", "filters_c2"),
+               # one categorical column each: the unordered and the ordered one have the same number of labels
+               ("cols_c2", "cols_c"), ("cols_c", "cols_c2"),
                # a memoising operation against itself; the direct entry point used by dask
                ("statistics", "statistics"), ("rrgf", "full"),
                # the two-pass row-level filter as the preempted thread
@@ -195,7 +197,10 @@ def dataset(kind="flat"):
                                      "c": pd.Categorical(["x", "y", "x", "z", "y", "x"]),
                                      # a second categorical column: to_pandas(categories=["c"]) reads it as plain text, so the
                                      # categories option of one call changes what another call would see if state leaked
-                                     "c2": pd.Categorical(["k", "k", "l", "m", "l", "k"]),
+                                     # (ordered, with as many labels as c: whatever is shared per label count or per
+                                     # call between categorical columns shows in the order flag)
+                                     "c2": pd.Categorical(["k", "k", "l", "m", "l", "k"], categories=["k", "l", "m"],
+                                                          ordered=True),
                                      "s": pd.Series(["s0", None, "s2", "s3", "s4", None], dtype=object)})
     key = ("path", kind)
     if key not in _STATE:
@@ -259,6 +264,10 @@ def op_body(op, pf):
         return lambda: canon_df(pf.to_pandas())
     if op in ("cols_a", "h:cols_a"):
         return lambda: canon_df(pf.to_pandas(columns=["a"]))
+    if op == "cols_c":
+        return lambda: canon_df(pf.to_pandas(columns=["c"]))
+    if op == "cols_c2":
+        return lambda: canon_df(pf.to_pandas(columns=["c2"]))
     if op == "filters":
         return lambda: canon_df(pf.to_pandas(filters=[("a", ">", 2)]))
     if op == "filters_c":
